@@ -27,6 +27,44 @@ pub struct Case {
     pub lgwin: u32,
     pub filters: Vec<Value>,
     pub cuts: Vec<usize>,
+    /// gzip only: offsets of the plain body at which the producer starts a new gzip member (RFC 1952: a gzip
+    /// stream is a series of members); an offset equal to the body length yields an empty last member
+    #[serde(default)]
+    pub members: Vec<usize>,
+    /// gzip only: optional header fields written by the producer (1 = file name, 2 = comment, 4 = extra field)
+    #[serde(default)]
+    pub gz_header: u8,
+}
+
+/// the compressed stream of a case (gzip: possibly several members and optional header fields)
+pub fn encode_case(body: &[u8], case: &Case) -> Vec<u8> {
+    if case.encoding != "gzip" || (case.members.is_empty() && case.gz_header == 0) {
+        return encode(body, &case.encoding, case.level, case.lgwin);
+    }
+    let mut bounds: Vec<usize> = case.members.iter().map(|m| (*m).min(body.len())).collect();
+    bounds.sort_unstable();
+    bounds.insert(0, 0);
+    bounds.push(body.len());
+    let mut out = Vec::new();
+    for (k, w) in bounds.windows(2).enumerate() {
+        if k > 0 && k + 1 == bounds.len() - 1 && w[0] == w[1] && !case.members.contains(&body.len()) {
+            continue;
+        }
+        let mut b = flate2::GzBuilder::new();
+        if case.gz_header & 1 != 0 {
+            b = b.filename("index.html");
+        }
+        if case.gz_header & 2 != 0 {
+            b = b.comment("produced by the monitor");
+        }
+        if case.gz_header & 4 != 0 {
+            b = b.extra(vec![b'A', b'p', 4, 0, 1, 2, 3, 4]);
+        }
+        let mut e = b.write(Vec::new(), flate2::Compression::new(case.level));
+        e.write_all(&body[w[0]..w[1]]).unwrap();
+        out.extend(e.finish().unwrap());
+    }
+    out
 }
 
 pub fn encode(body: &[u8], encoding: &str, level: u32, lgwin: u32) -> Vec<u8> {
@@ -58,7 +96,11 @@ pub fn decode(data: &[u8], encoding: &str) -> Result<Vec<u8>, String> {
     let mut out = Vec::new();
     match encoding {
         "gzip" => {
-            let mut d = flate2::bufread::GzDecoder::new(data);
+            // a valid gzip stream is one or more members and nothing else (trailing garbage is an error here)
+            if data.is_empty() {
+                return Err("gzip stream invalid: empty output".to_string());
+            }
+            let mut d = flate2::bufread::MultiGzDecoder::new(data);
             d.read_to_end(&mut out).map_err(|e| format!("gzip stream invalid: {e}"))?;
             let rest = d.into_inner();
             if !rest.is_empty() {
@@ -90,7 +132,7 @@ pub struct Stats {
 pub fn check(case: &Case) -> Result<Stats, String> {
     let body = unhex(&case.body_hex);
     let supported = matches!(case.encoding.as_str(), "gzip" | "deflate" | "br");
-    let compressed = encode(&body, &case.encoding, case.level, case.lgwin);
+    let compressed = encode_case(&body, case);
     let fc = FilterCase {
         filters: case.filters.clone(),
         headers: vec![
@@ -245,6 +287,12 @@ fn record(case: &Case, report: &mut Report) {
         }
         Ok(Ok(stats)) => {
             report.count(&format!("cases_{}", case.encoding));
+            if stats.filter_active && !case.members.is_empty() {
+                report.count("gzip_streams_of_several_members");
+            }
+            if stats.filter_active && case.gz_header != 0 {
+                report.count("gzip_streams_with_optional_header_fields");
+            }
             if stats.filter_active && stats.interior_cut {
                 report.nontrivial(mix(fnv(case.body_hex.as_bytes()), fnv(format!("{}{}{}{:?}{:?}", case.encoding, case.level, case.lgwin, case.cuts, case.filters).as_bytes())));
             }
@@ -284,7 +332,30 @@ pub fn run(ctx: &Ctx, _args: &Args) -> i32 {
                     continue; // quality 11 on hundreds of KB is slow; sampled less often
                 }
                 let filters = rng.pick(&lists).clone();
-                let compressed_len = encode(&b, encoding, level, lgwin).len();
+                // gzip producers that write several members (RFC 1952 section 2.2) and / or optional header fields
+                let (members, gz_header) = if encoding == "gzip" && size_class <= 3 && rng.chance(1, 3) {
+                    let k = rng.below(4);
+                    let mut m: Vec<usize> = (0..k).map(|_| rng.below(b.len() + 1)).collect();
+                    if rng.chance(1, 4) {
+                        m.push(b.len()); // an empty last member
+                    }
+                    m.sort_unstable();
+                    (m, rng.below(8) as u8)
+                } else {
+                    (Vec::new(), 0u8)
+                };
+                let proto = Case {
+                    body_hex: String::new(),
+                    encoding: encoding.to_string(),
+                    header_value: String::new(),
+                    level,
+                    lgwin,
+                    filters: Vec::new(),
+                    cuts: Vec::new(),
+                    members: members.clone(),
+                    gz_header,
+                };
+                let compressed_len = encode_case(&b, &proto).len();
                 let mut partitions: Vec<Vec<usize>> = vec![vec![]];
                 if compressed_len <= 400 {
                     // every single cut of a small stream
@@ -310,6 +381,8 @@ pub fn run(ctx: &Ctx, _args: &Args) -> i32 {
                         lgwin,
                         filters: filters.clone(),
                         cuts,
+                        members: members.clone(),
+                        gz_header,
                     };
                     record(&case, report);
                 }
@@ -325,6 +398,8 @@ pub fn run(ctx: &Ctx, _args: &Args) -> i32 {
                         lgwin: 0,
                         filters: lists[0].clone(),
                         cuts: random_cuts(b.len(), &mut rng),
+                        members: Vec::new(),
+                        gz_header: 0,
                     };
                     record(&case, report);
                 }
